@@ -12,6 +12,7 @@ import (
 	"runtime/debug"
 	"sort"
 	"strings"
+	"sync"
 	"sync/atomic"
 	"time"
 
@@ -251,6 +252,16 @@ func c03Targets() []c03Target {
 				}
 				q := ref.Params{ID: g.U16(), V2019: v, VersionByt: 1, Encrypt: g.Chance(1, 4), Fragmented: k == 1, Sum: g.U16(), No: g.U16(), BCD: g.Bytes(n), Serial: g.U16(), Body: body}
 				out = append(out, ref.Build(q))
+				if k == 2 && len(body) > 0 {
+					// the tolerated dialect: check code 0x7D sent raw (last body byte steered so that the check code is 0x7D)
+					pp := ref.Payload(q)
+					pp[len(pp)-2] ^= pp[len(pp)-1] ^ 0x7d
+					pp = c02Fix(pp)
+					if pp[len(pp)-1] == 0x7d && pp[len(pp)-2] != 0x7d && pp[len(pp)-2] != 0x7e {
+						e2 := ref.Escape(pp[:len(pp)-1])
+						out = append(out, append(e2[:len(e2)-1], 0x7d, 0x7e))
+					}
+				}
 				if k == 0 {
 					// the same frame with ONE byte of the phone field changed (checksum rebuilt): consecutive valid inputs that differ
 					// in a single header byte (whatever a decoder remembers about the previous phone gets a near-identical successor)
@@ -333,6 +344,44 @@ type c03Case struct {
 }
 
 // c03RunCase executes the four presentations; returns violations as (signature, detail) pairs via report.
+// c03Held: per target, the receiver and dump of an earlier successful parse; it is re-dumped after later cases have parsed other
+// inputs into OTHER receivers ("right when first looked at, wrong later": results that alias pooled or shared memory).
+type c03HeldEntry struct {
+	recv bodyParser
+	dump string
+	in   []byte
+}
+
+var c03HeldMu sync.Mutex
+var c03Held = map[string][]c03HeldEntry{}
+
+func c03HoldAndRecheck(t *c03Target, o c03Outcome, in []byte, report func(sig, detail string)) bool {
+	if o.Err || o.recv == nil {
+		return true
+	}
+	c03HeldMu.Lock()
+	l := append(c03Held[t.Name], c03HeldEntry{o.recv, Canon(reflect.ValueOf(o.recv), nil), in})
+	var old *c03HeldEntry
+	if len(l) > 5 {
+		old = &l[0]
+		l = l[1:]
+	}
+	c03Held[t.Name] = l
+	c03HeldMu.Unlock()
+	if old == nil {
+		return true
+	}
+	ok := true
+	func() {
+		defer func() { recover() }()
+		if now := Canon(reflect.ValueOf(old.recv), nil); now != old.dump {
+			report("held|"+t.TypeName+"|a parsed value changed after later parses of other inputs", "value parsed from "+core.HexCap(old.in, 48)+" differs now from what it was right after Parse: "+diffAt(old.dump, now))
+			ok = false
+		}
+	}()
+	return ok
+}
+
 func c03RunCase(t *c03Target, ver consts.ProtocolVersionType, in []byte, prior [][]byte, report func(sig, detail string)) (ok bool) {
 	withString := true
 	if t.TypeName == "P0x8103" || t.TypeName == "T0x0104" {
@@ -384,6 +433,9 @@ func c03RunCase(t *c03Target, ver consts.ProtocolVersionType, in []byte, prior [
 			report("bytes-only|JTMessage|fields", fmt.Sprintf("decoded header fields are not those of the bytes: id %04x/%04x serial %d/%d phone %q/%q", h.ID, rf.ID, h.SerialNumber, rf.Serial, h.TerminalPhoneNo, rf.Phone))
 			return false
 		}
+	}
+	if len(in) < 4096 && len(in) > 0 && (len(in)*7+int(in[len(in)/2]))%4 == 0 && !c03HoldAndRecheck(t, o1, in, report) {
+		return false
 	}
 	// reused receiver
 	re := t.Mk()
@@ -836,7 +888,9 @@ func c03Worker(c *core.Collector, x *Ctx) {
 			for _, in := range inputs {
 				c.Evals(4)
 				cs := c03Case{Kind: "c03", Target: tgt.Name, Version: int(tc.Ver), Gen: "big-body", Input: core.HexCap(in, 64) + fmt.Sprintf("…(%d bytes)", len(in))}
-				c03RunCase(tgt, tc.Ver, in, nil, func(sig, detail string) { c.Violate(sig, detail+fmt.Sprintf(" [body of %d bytes, %s]", len(in), tc.Name), cs) })
+				c03RunCase(tgt, tc.Ver, in, nil, func(sig, detail string) {
+					c.Violate(sig, detail+fmt.Sprintf(" [body of %d bytes, %s]", len(in), tc.Name), cs)
+				})
 				nbig.Add(1)
 				c.NonTrivial(core.HashBytes([]byte(tgt.Name), in[:min(len(in), 64)], []byte(fmt.Sprint(len(in)))))
 			}
